@@ -85,3 +85,98 @@ package sm4
 //@   ensures err == nil ==> result0 != nil && BS(id(result0)) == 16
 //@   ensures err != nil ==> result0 == nil
 //@   modifies nothing
+
+// ---- SM4-GCM over the fused assembly (C04): the Go glue of Seal and Open. The assembly routines are
+// assumed to write only the outputs named here (frames); GHASH and the counter-mode bytes themselves
+// are not stated.
+//@ func gcmSm4Data trusted property C04
+//@   requires productTable != nil && T != nil
+//@   modifies *T
+//@ func gcmSm4Finish trusted property C04
+//@   requires productTable != nil && tagMask != nil && T != nil
+//@   modifies *T
+//@ func gcmSm4Enc trusted property C04
+//@   requires productTable != nil && ctr != nil && T != nil && len(src) > 0 && len(dst) >= len(src) && len(rk) == 32
+//@   modifies dst[0..len(src)], *ctr, *T
+//@ func gcmSm4Dec trusted property C04
+//@   requires productTable != nil && ctr != nil && T != nil && len(src) > 0 && len(dst) >= len(src) && len(rk) == 32
+//@   modifies dst[0..len(src)], *ctr, *T
+// one block through the cipher object (assembly or the Go rounds): assumed to be the abstract block
+// function E_K of this object, writing the 16 output bytes only
+//@ func (*sm4CipherAsm).encrypt trusted property C03,C04
+//@   requires c != nil && len(dst) >= 16 && len(src) >= 16
+//@   ensures forall j :: 0 <= j && j < 16 ==> dst[j] == ENC(id(c), BLK(old(arr(src)), offof(src), 16))[j]
+//@   modifies dst[0..16]
+
+// Seal: only appends - the result is dst followed by len(plaintext) + tagSize bytes; nothing of dst's
+// visible part and nothing outside the appended region is written
+//@ func (*gcmAsm).Seal property C04
+//@   requires g != nil && g.cipher != nil && 12 <= g.tagSize && g.tagSize <= 16 && len(dst) + len(plaintext) + 16 < 4611686018427387904
+//@   maypanic
+//@   let DA := arr(dst)
+//@   let DO := offof(dst)
+//@   let DL := len(dst)
+//@   let PL := len(plaintext)
+//@   ensures len(result) == DL + PL + g.tagSize
+//@   ensures forall j :: 0 <= j && j < DL ==> result[j] == DA[DO + j]
+//@   modifies dst[len(dst)..cap(dst)]
+
+// Open: a ciphertext shorter than the tag is an error (never a panic); the tag compared is the last
+// tagSize bytes of the input; no plaintext without a matching tag - on a mismatch the output region
+// is zeroed and nil is returned; on success the result is dst followed by the decrypted bytes
+//@ func (*gcmAsm).Open property C04
+//@   requires g != nil && g.cipher != nil && g.tagSize <= 16 && len(dst) + len(ciphertext) < 4611686018427387904
+//@   requires !sameobj(dst, ciphertext) || offof(dst) + len(dst) == offof(ciphertext)
+//@   maypanic
+//@   let CA := arr(ciphertext)
+//@   let CO := offof(ciphertext)
+//@   let CL := len(ciphertext) - g.tagSize
+//@   let DL := len(dst)
+//@   let DA := arr(dst)
+//@   let DO := offof(dst)
+//@   bind after call ConstantTimeCompare#1: CMP := result
+//@   assert before call ConstantTimeCompare#1: len(arg0) == g.tagSize && len(arg1) == g.tagSize && forall j :: 0 <= j && j < g.tagSize ==> arg1[j] == CA[CO + CL + j]
+//@   ensures len(ciphertext) < g.tagSize ==> err != nil
+//@   ensures err == nil ==> CMP == 1 && len(result0) == DL + CL
+//@   ensures err == nil ==> forall j :: 0 <= j && j < DL ==> result0[j] == DA[DO + j]
+//@   ensures err != nil ==> isnil(result0)
+//@   assert at return: defined(expectedTag) && err != nil ==> len(out) == CL && forall j :: 0 <= j && j < len(out) ==> out[j] == 0
+//@   loop 1 invariant -1 <= rangeindex && rangeindex < len(out) && forall j :: 0 <= j && j <= rangeindex ==> out[j] == 0
+//@   loop 1 invariant onlychanged(out)
+//@   loop 1 decreases len(out) - rangeindex
+//@   modifies dst[len(dst)..cap(dst)]
+
+// the table-driven Go GCM (CPUs without carry-less multiplication): the counter increment touches
+// the last four bytes only, as a big-endian 32-bit value that wraps around (SP 800-38D inc_32)
+//@ func gcmInc32 property C04
+//@   requires counterBlock != nil
+//@   let V := 16777216 * counterBlock[12] + 65536 * counterBlock[13] + 256 * counterBlock[14] + counterBlock[15]
+//@   ensures 16777216 * counterBlock[12] + 65536 * counterBlock[13] + 256 * counterBlock[14] + counterBlock[15] == (V + 1) % 4294967296
+//@   ensures forall j :: 0 <= j && j < 12 ==> counterBlock[j] == old(counterBlock[j])
+//@   modifies *counterBlock
+
+// ---- CBC encryption through the single-block routine (C03): memory safety for every number of
+// blocks, in place or into a separate buffer; only dst[0..len(src)) and the CONTENT of the object's own
+// iv buffer change - the chaining value for the next call is copied into that buffer, the object never
+// keeps a reference to the caller's memory (so a later change of the caller's buffers cannot reach it).
+// The chaining recurrence itself is not stated here.
+//@ func (*cbc).CryptBlocks property C03
+//@   requires x != nil && x.b != nil && x.enc == cbcEncrypt && len(x.iv) == 16 && !sameobj(dst, x.iv) && !sameobj(src, x.iv)
+//@   maypanic
+//@   let D0 := dst
+//@   let S0 := src
+//@   let IV0 := x.iv
+//@   ensures sameslice(x.iv, IV0)
+//@   modifies dst[0..len(src)], x.iv[0..len(x.iv)]
+//@   loop 1 invariant sameobj(src, S0) && offof(src) + len(src) == offof(S0) + len(S0) && offof(S0) <= offof(src) && (offof(src) - offof(S0)) % 16 == 0 && len(src) % 16 == 0
+//@   loop 1 invariant sameobj(dst, D0) && offof(dst) - offof(D0) == offof(src) - offof(S0) && len(dst) == len(D0) - (offof(dst) - offof(D0)) && len(D0) >= len(S0)
+//@   loop 1 invariant x.b != nil && sameslice(x.iv, IV0) && len(iv) == 16
+//@   loop 1 invariant onlychanged(D0[:len(S0)])
+//@   loop 1 decreases len(src)
+
+//@ func (*cbc).SetIV property C03
+//@   requires x != nil && len(x.iv) == 16 && !sameobj(iv, x.iv)
+//@   maypanic
+//@   ensures forall i :: 0 <= i && i < 16 ==> x.iv[i] == old(iv[i])
+//@   ensures sameslice(x.iv, old(x.iv))
+//@   modifies x.iv[0..len(x.iv)]
